@@ -1,0 +1,27 @@
+//go:build verif
+
+package tsdb
+
+import (
+	"errors"
+
+	"github.com/lindb/lindb/kv"
+	"github.com/lindb/lindb/tsdb/tblstore/metricsdata"
+)
+
+// ErrVerifC11InjectedFlushFailure is the error of a flush made to fail by VerifC11FailFlush.
+var ErrVerifC11InjectedFlushFailure = errors.New("verif c11: injected flush failure")
+
+// VerifC11FailFlush makes every flush of a memory database fail at the point where
+// dataFamily.flushMemoryDatabase creates the metric data flusher (the package's own
+// newMetricDataFlusher seam) — after dataFamily.Flush has switched the mutable memory database to
+// the immutable one, before anything is written to a file — until restore is called.
+// Verification hook of property C11 (fault path of the write side: accepted points must stay
+// queryable after a failed flush).
+func VerifC11FailFlush() (restore func()) {
+	old := newMetricDataFlusher
+	newMetricDataFlusher = func(kv.Flusher) (metricsdata.Flusher, error) {
+		return nil, ErrVerifC11InjectedFlushFailure
+	}
+	return func() { newMetricDataFlusher = old }
+}
